@@ -163,6 +163,7 @@ Section C10.
     all: try (match goal with H : Complete _ = Complete _ |- _ => inversion H end; reflexivity).
     all: try reflexivity.
     all: try (apply load_complete; cbn; auto; fail).
+    all: try (usepc; auto; try discriminate; congruence).
     all: match goal with LV : forall r0, Some ?r = Some r0 -> _ |- _ => pose proof (LV r eq_refl) as Er; rewrite Er in *; discriminate end.
   Qed.
 
